@@ -210,6 +210,28 @@ type PublicKey[
 	signatures.PublicKeyTrait[PK, S]
 }
 
+type publicKeyDTO[PK any] struct {
+	V PK `cbor:"V"`
+}
+
+// UnmarshalCBOR deserialises a public key (same wire format as the default struct encoding) and
+// validates it like NewPublicKey: the point must be present, not the identity and torsion free.
+func (pk *PublicKey[P1, F1, P2, F2, E, S]) UnmarshalCBOR(data []byte) error {
+	dto, err := serde.UnmarshalCBOR[publicKeyDTO[P1]](data)
+	if err != nil {
+		return errs.Wrap(err).WithMessage("could not unmarshal public key from CBOR")
+	}
+	if utils.IsNil(dto.V) {
+		return signatures.ErrInvalidArgument.WithMessage("public key point is missing")
+	}
+	pk2, err := NewPublicKey[P1, F1, P2, F2, E, S](dto.V)
+	if err != nil {
+		return errs.Wrap(err).WithMessage("could not create public key from deserialized data")
+	}
+	*pk = *pk2
+	return nil
+}
+
 // Group returns the elliptic curve subgroup that this public key belongs to.
 func (pk *PublicKey[P1, F1, P2, F2, E, S]) Group() curves.PairingFriendlyCurve[P1, F1, P2, F2, E, S] {
 	group, ok := pk.V.Structure().(curves.PairingFriendlyCurve[P1, F1, P2, F2, E, S])
